@@ -1120,13 +1120,13 @@ trait_property_changed(
 
     tnotifiers = trait->notifiers;
     onotifiers = obj->notifiers;
-    Py_DECREF(trait);
 
     if (has_notifiers(tnotifiers, onotifiers)) {
         null_new_value = (new_value == NULL);
         if (null_new_value) {
             new_value = has_traits_getattro(obj, name);
             if (new_value == NULL) {
+                Py_DECREF(trait);
                 return -1;
             }
         }
@@ -1138,6 +1138,10 @@ trait_property_changed(
             Py_DECREF(new_value);
         }
     }
+
+    /* The trait owns tnotifiers: release it only after the notifiers have
+       been called (the property getter above may remove the trait). */
+    Py_DECREF(trait);
 
     return rc;
 }
